@@ -74,8 +74,15 @@ func symxC16File() {
 		}
 		pws[k] = symxLetter("pw", 'p', 'q')
 		if rt.Bool("three_fields") {
-			mps[k] = symxLetter("mp", 'm', 'n')
-			records[k] = []string{users[k], fingerprintString(pws[k]), mps[k]}
+			if rt.Param("empty_mp", 0) == 1 && rt.Bool("mount_point_field_left_empty") {
+				// "user:hash:" - a third field is there but names no mount point: "If mountpoint
+				// is empty, the default mountpoint will be used" (FileHandler's contract)
+				mps[k] = DefaultMountPoint
+				records[k] = []string{users[k], fingerprintString(pws[k]), ""}
+			} else {
+				mps[k] = symxLetter("mp", 'm', 'n')
+				records[k] = []string{users[k], fingerprintString(pws[k]), mps[k]}
+			}
 		} else {
 			mps[k] = DefaultMountPoint
 			records[k] = []string{users[k], fingerprintString(pws[k])}
